@@ -3,6 +3,10 @@ fn main() {
     let args: Vec<String> = std::env::args().collect();
     let vals: Vec<u64> = args[2..].iter().map(|s| s.parse().unwrap()).collect();
     let mut nd = Nondet::new(vals);
+    // futures built with tokio::time (timeouts) need a runtime context to be constructed and polled; no timer ever fires
+    // because the runtime is never driven
+    let runtime = tokio::runtime::Builder::new_current_thread().enable_time().build().expect("runtime");
+    let _guard = runtime.enter();
     match args[1].as_str() {
         "c05_peerstate_closed" => c05_peerstate_closed(&mut nd),
         "c05_manager_established" => c05_manager_established(&mut nd),
@@ -24,6 +28,7 @@ fn main() {
         "c19_length_delimited" => c19_length_delimited(&mut nd),
         "c04_varint_receive" => c04_varint_receive(&mut nd),
         "c04_sink_flush" => c04_sink_flush(&mut nd),
+        "c16_executor_request" => c16_executor_request(&mut nd),
         "c12_notification_stream" => c12_notification_stream(&mut nd),
         "c04_frame_sequence" => c04_frame_sequence(&mut nd),
         "c10_store_insert" => c10_store_insert(&mut nd),
